@@ -216,6 +216,12 @@ fn cells() -> Vec<Value> {
         (("a-b", "c_d"), ("a_b", "c-d")),
         (("AAA", "bbb"), ("aaa", "bbb")),
         (("x".repeat(64).as_str(), "yyy"), ("x".repeat(63).as_str(), "xyyy")),
+        // names that coincide once their two components are joined with a legal character or with nothing
+        (("foo_bar", "baz"), ("foo", "bar_baz")),
+        (("foo-bar", "qux"), ("foo", "bar-qux")),
+        (("abcdef", "ghi"), ("abc", "defghi")),
+        (("one", "two"), ("two", "one")),
+        (("left__", "right"), ("left_", "_right")),
     ]
     .map(|(a, b)| ((a.0.to_string(), a.1.to_string()), (b.0.to_string(), b.1.to_string())));
     for (a, b) in pairs {
@@ -250,7 +256,7 @@ pub async fn run(tier: &str, replaying: bool) -> ! {
     finish(
         rep,
         outs,
-        "name: 34 (namespace, topic) pairs at the length / character-class / reserved-word boundaries, built with _create_unchecked and sent on the wire by a raw peer as subscriber and requestor registrations (every fourth also as publisher and replier): the first frame back must be Ok iff the reference grammar accepts and an invalid-topic error otherwise (either for non-ASCII alphanumerics); isolation: 6 pairs of distinct valid names sharing prefixes / suffixes / case / separators, each with its own raw publisher and subscriber: each subscriber receives exactly its own topic's 5 messages in order and nothing published on the other name",
+        "name: 34 (namespace, topic) pairs at the length / character-class / reserved-word boundaries, built with _create_unchecked and sent on the wire by a raw peer as subscriber and requestor registrations (every fourth also as publisher and replier): the first frame back must be Ok iff the reference grammar accepts and an invalid-topic error otherwise (either for non-ASCII alphanumerics); isolation: 11 pairs of distinct valid names sharing prefixes / suffixes / case / separators, or coinciding once their components are joined by a legal character, by nothing, or swapped, each with its own raw publisher and subscriber: each subscriber receives exactly its own topic's 5 messages in order and nothing published on the other name",
         "complements the bounded-exhaustive grammar enumeration of engine W with the server-side enforcement path and the topic map lookup",
         json!({}),
         replaying,
